@@ -150,6 +150,12 @@ func c03Record(tier string, seed int64, emit func(interface{})) {
 	locusSweep(func() { // every division x molecule type, as parsed image and as assembled structure in turn
 		lines, want := genGbRecord(rng, 130, 2)
 		sweep++
+		switch sweep % 9 { // fields a record assembled in code may leave unset
+		case 1:
+			want.Source = ""
+		case 3:
+			want.Others = append(want.Others, [2]string{"PROJECT", ""})
+		}
 		if sweep%2 == 0 {
 			c03One(genbank.Parse([]byte(strings.Join(lines, "\n")+"\n")), 0, false, emit)
 		} else {
@@ -171,10 +177,16 @@ func c03Record(tier string, seed int64, emit func(interface{})) {
 		switch mode {
 		case 0: // the image of the parser over a generated file
 			x = genbank.Parse([]byte(strings.Join(lines, "\n") + "\n"))
-		case 1:
-			x = assemble(want, true)
-		default:
-			x = assemble(want, false)
+		case 1, 2:
+			// records assembled in code leave fields unset that a file always carries: no SOURCE text although the
+			// organism is known, an extra keyword block without text
+			switch rng.Intn(6) {
+			case 0:
+				want.Source = ""
+			case 1:
+				want.Others = append(want.Others, [2]string{"PROJECT", ""})
+			}
+			x = assemble(want, mode == 1)
 		}
 		c03One(x, mode, rng.Intn(4) == 0, emit)
 	}
